@@ -15,4 +15,5 @@ def main (args : List String) : IO UInt32 := do
   | ["C20"] => Proto.runLoop (C20.driverStep C20.Generated.schema) none; return 0
   | ["C11"] => Proto.runLoop C11.driverStep (); return 0
   | ["C08"] => Proto.runLoop C08.driverStep {}; return 0
+  | ["C07"] => Proto.runLoop C07.driverStep (); return 0
   | _ => IO.eprintln s!"unknown driver {args}"; return 2
